@@ -550,10 +550,16 @@ def r6(chk):
             disposed = c_and(in_l, c_or(c_not(in_w), c_not(("atom", f"lt({il},{iw})"))))
             want = _I(disposed, E(S(CONT)), E(sp.Integer(0)))
             # list.index returns a position >= 0, and two different candidates have different positions
+            def _total(r, a, b):
+                """numbers: exactly one of a < b, b < a, a == b (equality excluded here: distinct candidates)"""
+                la, lb = r.get(f"lt({a},{b})"), r.get(f"lt({b},{a})")
+                if la is None or lb is None:
+                    return True
+                return la != lb
             cons = [lambda r, iw=iw, il=il: not r.get(f"eq(-1,{iw})") and not r.get(f"eq(-1,{il})")
                     and r.get(f"lt(-1,{iw})", True) and r.get(f"lt(-1,{il})", True)
                     and not r.get(f"lt({iw},-1)") and not r.get(f"lt({il},-1)")
-                    and not r.get(f"eq({il},{iw})") and not r.get(f"eq({iw},{il})")]
+                    and not r.get(f"eq({il},{iw})") and not r.get(f"eq({iw},{il})") and _total(r, iw, il)]
             okk, n, cex = symx.equivalent(it, want, constraints=cons)
             after = [x for x in (parent(l).orelse if l in getattr(parent(l), "orelse", []) else parent(l).body)]
             nxt = after[after.index(l) + 1] if after.index(l) + 1 < len(after) else None
